@@ -256,9 +256,9 @@ Proof.
     rewrite T in E2. rewrite E2 in E at 1. lia.
 Qed.
 
-Lemma bits_value_range a K i k : 0 <= bits_value a K i k < 2 ^ Z.of_nat k.
+Lemma bits_value_range a K i k : 0 <= bphp_bits_value a K i k < 2 ^ Z.of_nat k.
 Proof.
-  induction k as [|k IH]; [cbn; lia|]. cbn [bits_value].
+  induction k as [|k IH]; [cbn; lia|]. cbn [bphp_bits_value].
   rewrite Nat2Z.inj_succ, Z.pow_succ_r by lia.
   assert (0 < 2 ^ Z.of_nat k) by (apply Z.pow_pos_nonneg; lia).
   destruct (a (bitvar K i (Z.of_nat k))); lia.
@@ -268,11 +268,11 @@ Lemma bitvar_pos K i b : 1 <= i -> 0 <= b < K -> 0 < bitvar K i b.
 Proof. intros Hi Hb. unfold bitvar. assert (0 <= (i - 1) * K) by (apply Z.mul_nonneg_nonneg; lia). lia. Qed.
 
 Lemma forbid_from_sem a K i j : 1 <= i -> 0 <= j -> forall k, Z.of_nat k <= K ->
-  clause_sat a (forbid_from K i j k) = negb (bits_value a K i k =? j mod 2 ^ Z.of_nat k).
+  clause_sat a (bphp_forbid_from K i j k) = negb (bphp_bits_value a K i k =? j mod 2 ^ Z.of_nat k).
 Proof.
   intros Hi Hj. induction k as [|k IH]; intros Hk.
   - cbn. rewrite Z.mod_1_r. reflexivity.
-  - cbn [forbid_from bits_value]. rewrite clause_sat_cons, IH by lia.
+  - cbn [bphp_forbid_from bphp_bits_value]. rewrite clause_sat_cons, IH by lia.
     rewrite Nat2Z.inj_succ, <- Z.add_1_r. rewrite (mod_pow2_succ j (Z.of_nat k)) by lia.
     pose proof (bits_value_range a K i k) as B.
     assert (0 < 2 ^ Z.of_nat k) as HP by (apply Z.pow_pos_nonneg; lia).
@@ -283,20 +283,20 @@ Proof.
 Qed.
 
 Lemma forbid_sem a K i j : 0 <= K -> 1 <= i -> 0 <= j < 2 ^ K ->
-  clause_sat a (forbid K i j) = negb (bits_value a K i (Z.to_nat K) =? j).
+  clause_sat a (bphp_forbid K i j) = negb (bphp_bits_value a K i (Z.to_nat K) =? j).
 Proof.
-  intros HK Hi Hj. unfold forbid. rewrite forbid_from_sem by lia. rewrite Z2Nat.id by assumption.
+  intros HK Hi Hj. unfold bphp_forbid. rewrite forbid_from_sem by lia. rewrite Z2Nat.id by assumption.
   now rewrite Z.mod_small by assumption.
 Qed.
 
-Lemma forbid_from_ok K i j : 1 <= i -> forall k, Z.of_nat k <= K -> lits_ok (forbid_from K i j k) = true.
+Lemma forbid_from_ok K i j : 1 <= i -> forall k, Z.of_nat k <= K -> lits_ok (bphp_forbid_from K i j k) = true.
 Proof.
-  intros Hi. induction k as [|k IH]; intros Hk; [reflexivity|]. cbn [forbid_from lits_ok forallb].
-  fold (lits_ok (forbid_from K i j k)). rewrite IH by lia. rewrite andb_true_r. apply nonzero_spec.
+  intros Hi. induction k as [|k IH]; intros Hk; [reflexivity|]. cbn [bphp_forbid_from lits_ok forallb].
+  fold (lits_ok (bphp_forbid_from K i j k)). rewrite IH by lia. rewrite andb_true_r. apply nonzero_spec.
   assert (0 < bitvar K i (Z.of_nat k)) by (apply bitvar_pos; lia). destruct (Z.testbit j (Z.of_nat k)); lia.
 Qed.
-Lemma forbid_ok K i j : 0 <= K -> 1 <= i -> lits_ok (forbid K i j) = true.
-Proof. intros HK Hi. unfold forbid. apply forbid_from_ok; lia. Qed.
+Lemma forbid_ok K i j : 0 <= K -> 1 <= i -> lits_ok (bphp_forbid K i j) = true.
+Proof. intros HK Hi. unfold bphp_forbid. apply forbid_from_ok; lia. Qed.
 
 Lemma bphp_bits_spec n : 1 <= n -> 0 <= bphp_bits n /\ n <= 2 ^ bphp_bits n.
 Proof.
@@ -445,11 +445,11 @@ Proof.
 Qed.
 
 Lemma bphp_enc_value n h i : 0 <= h i -> forall k, Z.of_nat k <= bphp_bits n ->
-  bits_value (bphp_enc n h) (bphp_bits n) i k = h i mod 2 ^ Z.of_nat k.
+  bphp_bits_value (bphp_enc n h) (bphp_bits n) i k = h i mod 2 ^ Z.of_nat k.
 Proof.
   intros Hh. induction k as [|k IH]; intros Hk.
   - cbn. now rewrite Z.mod_1_r.
-  - cbn [bits_value]. rewrite IH by lia. rewrite bphp_enc_bit by lia.
+  - cbn [bphp_bits_value]. rewrite IH by lia. rewrite bphp_enc_bit by lia.
     rewrite Nat2Z.inj_succ, <- Z.add_1_r. rewrite (mod_pow2_succ (h i) (Z.of_nat k)) by lia. reflexivity.
 Qed.
 
@@ -643,13 +643,13 @@ Proof.
 Qed.
 
 (* ---------- bphp: one assignment per object ---------- *)
-Lemma bits_value_inj a b K i : forall k, bits_value a K i k = bits_value b K i k ->
+Lemma bits_value_inj a b K i : forall k, bphp_bits_value a K i k = bphp_bits_value b K i k ->
   forall t, 0 <= t < Z.of_nat k -> a (bitvar K i t) = b (bitvar K i t).
 Proof.
-  induction k as [|k IH]; intros E t Ht; [lia|]. cbn [bits_value] in E.
+  induction k as [|k IH]; intros E t Ht; [lia|]. cbn [bphp_bits_value] in E.
   pose proof (bits_value_range a K i k) as Ba. pose proof (bits_value_range b K i k) as Bb.
   assert (0 < 2 ^ Z.of_nat k) as HP by (apply Z.pow_pos_nonneg; lia).
-  assert (a (bitvar K i (Z.of_nat k)) = b (bitvar K i (Z.of_nat k)) /\ bits_value a K i k = bits_value b K i k) as [E1 E2].
+  assert (a (bitvar K i (Z.of_nat k)) = b (bitvar K i (Z.of_nat k)) /\ bphp_bits_value a K i k = bphp_bits_value b K i k) as [E1 E2].
   { destruct (a (bitvar K i (Z.of_nat k))), (b (bitvar K i (Z.of_nat k))); split; try reflexivity; lia. }
   destruct (Z.eq_dec t (Z.of_nat k)) as [->|Hne]; [exact E1|]. apply IH; [exact E2|lia].
 Qed.
